@@ -53,6 +53,9 @@ type streamDesc struct {
 	SeriesN int64       `json:"series_n"`
 	PointN  int64       `json:"point_n"`
 	Trace   bool        `json:"trace"`
+	// Ticking: the source iterator is slow (a few ms per point) and the encoder's stats
+	// interval is 1 ms, so periodic stats frames are emitted in the middle of the stream
+	Ticking bool `json:"ticking,omitempty"`
 }
 
 type rawDesc struct {
@@ -432,7 +435,16 @@ func readAll(typ string, data []byte) (cls int, pts []cpoint) {
 }
 
 // slice iterators feeding IteratorEncoder
-type baseItr struct{ stats query.IteratorStats }
+type baseItr struct {
+	stats query.IteratorStats
+	delay time.Duration // per Next call (a slow shard scan)
+}
+
+func (b *baseItr) wait() {
+	if b.delay > 0 {
+		time.Sleep(b.delay)
+	}
+}
 
 func (b *baseItr) Stats() query.IteratorStats { return b.stats }
 func (b *baseItr) Close() error               { return nil }
@@ -443,6 +455,7 @@ type fItr struct {
 }
 
 func (i *fItr) Next() (*query.FloatPoint, error) {
+	i.wait()
 	if len(i.p) == 0 {
 		return nil, nil
 	}
@@ -457,6 +470,7 @@ type iItr struct {
 }
 
 func (i *iItr) Next() (*query.IntegerPoint, error) {
+	i.wait()
 	if len(i.p) == 0 {
 		return nil, nil
 	}
@@ -471,6 +485,7 @@ type uItr struct {
 }
 
 func (i *uItr) Next() (*query.UnsignedPoint, error) {
+	i.wait()
 	if len(i.p) == 0 {
 		return nil, nil
 	}
@@ -485,6 +500,7 @@ type sItr struct {
 }
 
 func (i *sItr) Next() (*query.StringPoint, error) {
+	i.wait()
 	if len(i.p) == 0 {
 		return nil, nil
 	}
@@ -499,6 +515,7 @@ type bItr struct {
 }
 
 func (i *bItr) Next() (*query.BooleanPoint, error) {
+	i.wait()
 	if len(i.p) == 0 {
 		return nil, nil
 	}
@@ -507,8 +524,8 @@ func (i *bItr) Next() (*query.BooleanPoint, error) {
 	return x, nil
 }
 
-func sliceItr(typ string, ds []pointDesc, st query.IteratorStats) query.Iterator {
-	b := baseItr{stats: st}
+func sliceItr(typ string, ds []pointDesc, st query.IteratorStats, delay time.Duration) query.Iterator {
+	b := baseItr{stats: st, delay: delay}
 	switch typ {
 	case "float":
 		it := &fItr{baseItr: b}
@@ -674,6 +691,11 @@ func runStream(o *hx.Out, d streamDesc, origin string) {
 	var bb bytes.Buffer
 	enc := query.NewIteratorEncoder(&bb)
 	enc.StatsInterval = time.Hour // no timer-driven stats frames: initial and final only
+	var delay time.Duration
+	if d.Ticking {
+		enc.StatsInterval = time.Millisecond
+		delay = 4 * time.Millisecond
+	}
 	st := query.IteratorStats{SeriesN: int(d.SeriesN), PointN: int(d.PointN)}
 	encCls := 0
 	var traceData []byte
@@ -683,7 +705,7 @@ func runStream(o *hx.Out, d streamDesc, origin string) {
 				encCls = 2
 			}
 		}()
-		if err := enc.EncodeIterator(sliceItr(d.Typ, d.Points, st)); err != nil {
+		if err := enc.EncodeIterator(sliceItr(d.Typ, d.Points, st, delay)); err != nil {
 			encCls = 1
 			return
 		}
@@ -703,12 +725,15 @@ func runStream(o *hx.Out, d streamDesc, origin string) {
 		origs[i] = origCanon(p)
 		sigs[i] = pointSig(p)
 	}
-	coq := fmt.Sprintf("CStream %s %s %d %d %s %d %s %d %s", coqTyp(d.Typ), coqPoints(origs), uint64(d.SeriesN), uint64(d.PointN), hx.CoqBytes(traceData),
-		encCls, hx.CoqBytes(data), cls, coqPoints(pts))
+	coq := fmt.Sprintf("CStream %s %s %d %d %s %s %d %s %d %s", coqTyp(d.Typ), coqPoints(origs), uint64(d.SeriesN), uint64(d.PointN), hx.CoqBytes(traceData),
+		hx.CoqBool(d.Ticking), encCls, hx.CoqBytes(data), cls, coqPoints(pts))
+	if d.Ticking {
+		o.Count("stream:ticking")
+	}
 	o.Count("stream:typ=" + d.Typ)
 	o.Count(fmt.Sprintf("stream:points=%d", len(d.Points)))
 	o.Emit(hx.Case{Kind: "stream", Coq: coq, Desc: d, Obs: map[string]interface{}{"encode_class": encCls, "stream_len": len(data), "read_class": cls, "points_read": len(pts)},
-		Nontrivial: len(d.Points) > 0, Sig: fmt.Sprintf("st:%s:%d:%d:%v:%s", d.Typ, d.SeriesN, d.PointN, d.Trace, strings.Join(sigs, "/")), Origin: origin})
+		Nontrivial: len(d.Points) > 0, Sig: fmt.Sprintf("st:%s:%d:%d:%v:%v:%s", d.Typ, d.SeriesN, d.PointN, d.Trace, d.Ticking, strings.Join(sigs, "/")), Origin: origin})
 }
 
 const rawCap = 1 << 24
@@ -1024,7 +1049,11 @@ func genBody(r *hx.Rand) []byte {
 			b = pbTag(b, 8, 0)
 			b = append(b, bytes.Repeat([]byte{0xff}, 9)...)
 			b = append(b, []byte{0, 1, 2, 0x7f}[r.Intn(4)])
-		case 14: // non-canonical tag varint
+		case 14: // field number 0, or a non-canonical tag varint
+			if r.Bool() {
+				b = append(b, byte(r.Intn(8)), byte(r.Intn(3)))
+				break
+			}
 			b = append(b, 0x80|byte(8*3), 0x80, 0)
 			b = pbVarint(b, r.U64())
 		default: // repeated scalar: the last one wins
@@ -1109,6 +1138,9 @@ func designedPoints(o *hx.Out) {
 		runStream(o, streamDesc{Typ: typ, Trace: true}, "designed")
 		runStream(o, streamDesc{Typ: typ, Points: []pointDesc{p1}, SeriesN: 1, PointN: 1}, "designed")
 		runStream(o, streamDesc{Typ: typ, Points: []pointDesc{p1, p2, p1}, SeriesN: -1, PointN: 9223372036854775807, Trace: true}, "designed")
+		// periodic stats frames in the middle of the stream: no point may be lost to them
+		runStream(o, streamDesc{Typ: typ, Points: []pointDesc{p1, p2, p1, p2, p1, p2}, SeriesN: 2, PointN: 6, Ticking: true}, "designed")
+		runStream(o, streamDesc{Typ: typ, Points: []pointDesc{p2, p1, p1}, SeriesN: 1, PointN: 3, Trace: true, Ticking: true}, "designed")
 		// frame-level edge cases
 		var one bytes.Buffer
 		encodeOne(&one, realPoint(normPoint(p1)))
@@ -1136,6 +1168,13 @@ func designedPoints(o *hx.Out) {
 		runRaw(o, rawDesc{Typ: typ, Stream: frameOf(append(append([]byte{}, req...), 0x7c))}, "designed")                          // stray end group
 		runRaw(o, rawDesc{Typ: typ, Stream: frameOf(append(append([]byte{}, req...), 0x7e))}, "designed")                          // wire type 6
 		runRaw(o, rawDesc{Typ: typ, Stream: frameOf(append(append([]byte{}, req...), 0x7d, 1, 2, 3))}, "designed")                 // short fixed32
+		// field number 0 is rejected ("illegal tag 0") in every message type, whatever its wire type
+		runRaw(o, rawDesc{Typ: typ, Stream: frameOf(append(append([]byte{}, req...), 0, 11))}, "designed")
+		runRaw(o, rawDesc{Typ: typ, Stream: frameOf(append(append([]byte{}, req...), 2, 0))}, "designed")
+		runRaw(o, rawDesc{Typ: typ, Stream: frameOf(append(append([]byte{}, req...), 7))}, "designed")
+		runRaw(o, rawDesc{Typ: typ, Stream: frameOf(pbBytesField(append([]byte{}, req...), 5, []byte{8, 1, 0, 0}))}, "designed")
+		runRaw(o, rawDesc{Typ: typ, Stream: frameOf(pbBytesField(append([]byte{}, req...), 11, []byte{0, 0}))}, "designed")
+		runRaw(o, rawDesc{Typ: typ, Stream: frameOf(append(append([]byte{}, req...), 0x7b, 0, 0, 0x7c))}, "designed") // tag 0 inside a skipped group is not checked
 	}
 	// one large frame length (allocation only; the read fails)
 	runRaw(o, rawDesc{Typ: "float", Stream: []byte{0x08, 0, 0, 0, 1, 2, 3}, AllowHuge: true}, "designed")
